@@ -369,6 +369,13 @@ func checkC20(c *Ctx) {
 			}
 		}
 	}
+	// just beyond the limit with every conversion, also where no padding would result: %v and %% never pad,
+	// an argument that is already longer than the width needs none
+	for _, w := range []string{"65537", "-65537", "70000", "065537", "131072"} {
+		for _, call := range []string{`printf("[%Wv]", 1)`, `printf("[%Wv]", "ab")`, `printf("100%W%")`, `printf("[%Ws]", big)`, `printf("[%Wf]", 1.5)`, `printf("[%Ws]", "")`, `printf("%s [%Ws]", "a", big)`} {
+			hjobs = append(hjobs, Job{Kind: "run", Prog: []byte("BEGIN {\n  big = \"x\"\n  for (i = 0; i < 18; i++) {\n    big = big + big\n  }\n  print \"start\"\n  " + strings.ReplaceAll(call, "W", w) + "\n  print \"after\"\n}\n"), Budget: 10000, Tag: w + call})
+		}
+	}
 	pool.Map(hjobs, func(i int, r Result) {
 		if r.Class == "timeout" {
 			c.Count("inconclusive", 1)
@@ -441,6 +448,14 @@ func checkC20(c *Ctx) {
 		}
 		c.Case("bin:"+binCases[i][0], true)
 	})
+
+	// ---- nothing accumulates towards a limit over a long run; nesting as deep as a 64 KiB text allows
+	if c.Thorough() {
+		checkLongHistories(c, []int{1000, 400000})
+	} else {
+		checkLongHistories(c, []int{320000})
+	}
+	checkC01DeepNesting(c)
 
 	// ---- TLC: one value of each limit explains every observation
 	var sb strings.Builder
